@@ -159,7 +159,7 @@ def delta_exhaustive(n, v, negative):
             if v == 0:
                 if got != 0:
                     return FAIL(f'position {arg}: entry {got} for v=0')
-            elif abs(got - float(v)) > _vtol(v, d):
+            elif not abs(got - float(v)) <= _vtol(v, d):
                 return FAIL(f'position {arg}: entry {got!r} instead of {v!r}')
             D[tuple(pos)] = 0
             if np.any(D != 0):
@@ -258,7 +258,7 @@ def poly_value(n, shift, power, scale):
     want = scale * terms.sum(axis=1)
     mag = abs(scale) * np.abs(terms).sum(axis=1)
     got = D[tuple(I.T)]
-    bad = np.abs(got - want) > 16 * (d + 2) * EPS * mag + 1e-300
+    bad = ~(np.abs(got - want) <= 16 * (d + 2) * EPS * mag + 1e-300)
     if bad.any():
         k = int(np.argmax(bad))
         return FAIL(f'entry {I[k].tolist()}: {got[k]!r} vs {want[k]!r} (scale of terms {mag[k]:.3e})')
@@ -296,7 +296,7 @@ def rand_range(n, r, a, b, seed, as_array):
     if msg:
         return FAIL(msg)
     x = np.concatenate([G.reshape(-1) for G in Y])
-    if x.min() < a or x.max() > b:
+    if not (x.min() >= a and x.max() <= b):
         return FAIL(f'entries [{x.min()}, {x.max()}] outside [{a}, {b}]')
     if x.size >= 200:
         w = b - a
@@ -385,7 +385,7 @@ def rand_stab_ones(d, nk, r, noise, seed):
         if np.any(x != 0):
             return FAIL('noise=0 but cores differ from the identity pattern')
     else:
-        if np.abs(x).max() > 8 * noise:
+        if not np.abs(x).max() <= 8 * noise:
             return FAIL(f'deviation from the identity pattern {np.abs(x).max():.3e} > 8 * noise={noise}')
         if x.size >= 2000:
             if abs(x.mean()) > 7 * noise / math.sqrt(x.size) + EPS:
@@ -406,7 +406,7 @@ def rand_stab_ones(d, nk, r, noise, seed):
             idx = [int(g.integers(k)) for k in n]
             err = max(err, abs(_chain(Y, idx) - 1))
         err = max(err, abs(_chain(Y, [0] * d) - 1), abs(_chain(Y, [k - 1 for k in n]) - 1))
-    if err > tol:
+    if not err <= tol:
         return FAIL(f'entry deviates from 1 by {err:.3e} > bound {tol:.3e} (d={d}, r={r}, noise={noise})')
     if noise <= 1e-3 and err > 0.5:
         return FAIL(f'entries not of order one: |x-1| = {err}')
